@@ -77,6 +77,7 @@ PARTS = {
   },
   'C09': {
     'quick': [
+      T('pairs-wideint5x2', 'base', 'prop=C09', 'keys=wideint', 'nkeys=5', 'nvals=2'),
       T('pairs-int-blob4x2', 'base', 'prop=C09', 'keys=int', 'vals=blob', 'nkeys=4', 'nvals=2'),
       T('pairs-int3x2', 'base', 'prop=C09', 'keys=int', 'nkeys=3', 'nvals=2'),
       T('pairs-int5x2', 'base', 'prop=C09', 'keys=int', 'nkeys=5', 'nvals=2'),
@@ -84,6 +85,7 @@ PARTS = {
       T('pairs-int4x2-asan', 'asan', 'prop=C09', 'keys=int', 'nkeys=4', 'nvals=2'),
     ],
     'thorough': [
+      T('pairs-wideint6x2', 'base', 'prop=C09', 'keys=wideint', 'nkeys=6', 'nvals=2'),
       T('pairs-int-blob5x2', 'base', 'prop=C09', 'keys=int', 'vals=blob', 'nkeys=5', 'nvals=2'),
       T('pairs-int3x2', 'base', 'prop=C09', 'keys=int', 'nkeys=3', 'nvals=2'),
       T('pairs-int6x2', 'base', 'prop=C09', 'keys=int', 'nkeys=6', 'nvals=2'),
@@ -94,6 +96,7 @@ PARTS = {
   },
   'C10': {
     'quick': [
+      T('eqhash-wideint6x2', 'base', 'prop=C10', 'keys=wideint', 'nkeys=6', 'nvals=2'),
       T('eqhash-cross-int-blob6x2', 'base', 'prop=C10', 'keys=int', 'vals=blob', 'nkeys=6', 'nvals=2', 'cross=1', 'table=1'),
       T('eqhash-cross-int-int5x2-asan', 'asan', 'prop=C10', 'keys=int', 'vals=int', 'nkeys=5', 'nvals=2', 'cross=1', 'table=1'),
       # mixed key/value sizes: eq / hash / copy / assign / rebuild must survive every removal and copy path
@@ -112,6 +115,7 @@ PARTS = {
       T('eqhash-int5x2-asan', 'asan', 'prop=C10', 'keys=int', 'nkeys=5', 'nvals=2'),
     ],
     'thorough': [
+      T('eqhash-wideint8x2', 'base', 'prop=C10', 'keys=wideint', 'nkeys=8', 'nvals=2'),
       T('eqhash-cross-int-blob8x2', 'base', 'prop=C10', 'keys=int', 'vals=blob', 'nkeys=8', 'nvals=2', 'cross=1', 'table=1'),
       T('eqhash-cross-int-int6x2-asan', 'asan', 'prop=C10', 'keys=int', 'vals=int', 'nkeys=6', 'nvals=2', 'cross=1', 'table=1'),
       T('eqhash-int-blob8x2', 'base', 'prop=C10', 'keys=int', 'vals=blob', 'nkeys=8', 'nvals=2', 'alias=1'),
@@ -130,6 +134,7 @@ PARTS = {
   },
   'C12': {
     'quick': [
+      T('fail-wideint6x2', 'base', 'prop=C12', 'keys=wideint', 'nkeys=6', 'nvals=2'),
       T('fail-int-blob6x2', 'base', 'prop=C12', 'keys=int', 'vals=blob', 'nkeys=6', 'nvals=2'),
       T('fail-probe-int5x2-asan', 'asan', 'prop=C12', 'keys=probe', 'vals=int', 'nkeys=5', 'nvals=2'),
       T('fail-int6x2', 'base', 'prop=C12', 'keys=int', 'nkeys=6', 'nvals=2'),
@@ -140,6 +145,7 @@ PARTS = {
       T('fail-str5-asan', 'asan', 'prop=C12', 'keys=str', 'nkeys=5', 'nvals=1'),
     ],
     'thorough': [
+      T('fail-wideint8x2', 'base', 'prop=C12', 'keys=wideint', 'nkeys=8', 'nvals=2'),
       T('fail-int-blob8x2', 'base', 'prop=C12', 'keys=int', 'vals=blob', 'nkeys=8', 'nvals=2'),
       T('fail-probe-int6x2-asan', 'asan', 'prop=C12', 'keys=probe', 'vals=int', 'nkeys=6', 'nvals=2'),
       T('fail-int8x2', 'base', 'prop=C12', 'keys=int', 'nkeys=8', 'nvals=2'),
